@@ -729,13 +729,27 @@ pub fn check_history(obs: &mut Obs, plan: &Plan, h: &RtScope, outcome: &Outcome,
             return;
         }
     }
-    if !plan.planned.starts_with(&delivered) {
-        obs.violation(
-            "deliveries are not a prefix of the upload history in order",
-            format!("planned {:?}..., delivered {:?}", &plan.planned[..plan.planned.len().min(8)], &delivered[..delivered.len().min(8)]),
-            replay.clone(),
-        );
-        return;
+    // The statement fixes the first delivery and the successor relation, not *which* chunk of the
+    // next volume follows an end chunk (the library takes the newest one listed; taking the volume
+    // from its first chunk would be just as legal).  So the path is judged link by link (above),
+    // and every delivered chunk must be one the uploader really published.
+    for d in &delivered {
+        match h.chunks.get(d) {
+            Some(c) if c.never => {
+                obs.violation("a chunk that never appeared is delivered", format!("{:?}", d), replay.clone());
+                return;
+            }
+            Some(_) => {}
+            None => {
+                obs.violation("a delivered chunk was never uploaded", format!("{:?}", d), replay.clone());
+                return;
+            }
+        }
+    }
+    if plan.planned.starts_with(&delivered) {
+        obs.count("histories_following_the_newest_chunk_path", 1);
+    } else {
+        obs.count("histories_following_another_legal_path", 1);
     }
     for (_, id, data, is_start) in &h.deliveries {
         let key = (id.volume().as_number(), id.sequence().unwrap_or(0));
@@ -771,14 +785,21 @@ pub fn check_history(obs: &mut Obs, plan: &Plan, h: &RtScope, outcome: &Outcome,
         let vol = key.split('/').nth(1).and_then(|v| v.parse::<usize>().ok()).unwrap_or(0);
         let seq = name.split('-').nth(2).and_then(|s| s.parse::<usize>().ok()).unwrap_or(0);
         let sent_before: Vec<(usize, usize)> = h.deliveries.iter().filter(|d| d.0 <= *i).map(|d| (d.1.volume().as_number(), d.1.sequence().unwrap_or(0))).collect();
-        // the poller only downloads chunk k after it has sent chunk k-1, and every send that
-        // happened before this request was drained when the request arrived: exact
-        let allowed: Vec<(usize, usize)> = plan.planned.get(sent_before.len()).copied().into_iter().collect();
+        // the poller only downloads a chunk after it has sent its predecessor, and every send that
+        // happened before this request was drained when the request arrived: the only admissible
+        // download is the successor of the last chunk sent - the next sequence of the same volume,
+        // or, after an end chunk, some chunk of the next volume in rotation
         if name == meta_name && vol == plan.start_vol && meta_gets < 2 {
             meta_gets += 1;
             continue;
         }
-        if !allowed.contains(&(vol, seq)) {
+        let ok = match sent_before.last() {
+            None => (vol, seq) == plan.planned[0],
+            Some(&(lv, ls)) if ls < 55 => (vol, seq) == (lv, ls + 1),
+            Some(&(lv, _)) => vol == next_vol(lv) && (1..=55).contains(&seq),
+        };
+        let allowed = format!("the successor of {:?}", sent_before.last());
+        if !ok {
             obs.violation(
                 "polling requests a chunk other than the next expected one (skips ahead or goes back)",
                 format!("request {} GET {} while {} deliveries had been sent; allowed {:?}", i, key, sent_before.len(), allowed),
@@ -841,20 +862,32 @@ pub fn check_history(obs: &mut Obs, plan: &Plan, h: &RtScope, outcome: &Outcome,
             .count()
     };
     if result == Err("ExpectedChunkNotFound".to_string()) {
-        if let Some(&(nv, ns)) = plan.planned.get(delivered.len()) {
-            let is_the_never = matches!(plan.terminal, Terminal::Never { index } if index == delivered.len());
+        // the chunk the poller was waiting for when it gave up: the next one of the planned path, or,
+        // on another legal path, the successor of its last delivery
+        let on_planned_path = plan.planned.starts_with(&delivered);
+        let waiting_for: Option<(usize, Option<usize>)> = if on_planned_path {
+            plan.planned.get(delivered.len()).map(|&(v, s)| (v, Some(s)))
+        } else {
+            match delivered.last() {
+                Some(&(lv, ls)) if ls < 55 => Some((lv, Some(ls + 1))),
+                Some(&(lv, _)) => Some((next_vol(lv), None)),
+                None => None,
+            }
+        };
+        if let Some((nv, ns)) = waiting_for {
+            let is_the_never = on_planned_path && matches!(plan.terminal, Terminal::Never { index } if index == delivered.len());
             if !is_the_never {
-                let vol_entry = plan.later_vols.iter().find(|(v, _, shown)| *v == nv && *shown == ns);
-                let (scripted, made) = match vol_entry {
-                    Some((_, hidden, _)) => (*hidden, polling_lists_of(nv)),
-                    None => {
-                        let c = &h.chunks[&(nv, ns)];
-                        (c.get_failures.len(), gets.iter().filter(|g| g.1.ends_with(c.name.as_str())).count())
-                    }
+                let vol_entry = plan.later_vols.iter().find(|(v, _, shown)| *v == nv && (ns.is_none() || ns == Some(*shown)));
+                let counts = match (vol_entry, ns.and_then(|s| h.chunks.get(&(nv, s)))) {
+                    (Some((_, hidden, _)), _) => Some((*hidden, polling_lists_of(nv))),
+                    (None, Some(c)) => Some((c.get_failures.len(), gets.iter().filter(|g| g.1.ends_with(c.name.as_str())).count())),
+                    (None, None) => None,
                 };
-                if scripted >= 3 && made >= 3 && made <= scripted {
-                    obs.count("scripted_delays_longer_than_the_observed_retry_budget", 1);
-                    return;
+                if let Some((scripted, made)) = counts {
+                    if scripted >= 3 && made >= 3 && made <= scripted {
+                        obs.count("scripted_delays_longer_than_the_observed_retry_budget", 1);
+                        return;
+                    }
                 }
             }
         }
@@ -863,10 +896,19 @@ pub fn check_history(obs: &mut Obs, plan: &Plan, h: &RtScope, outcome: &Outcome,
     // ---- termination -------------------------------------------------------------------------------------------
     match &plan.terminal {
         Terminal::Never { index: ni } => {
-            if delivered.len() != *ni {
+            // the poller must have come as far as the chunk right before the missing one (by
+            // whichever legal path), and no further
+            let (nv, ns) = plan.planned[*ni];
+            let never_is_volume = plan.later_vols.iter().any(|(v, _, shown)| *v == nv && *shown == ns);
+            let reached = match delivered.last() {
+                Some(&(lv, ls)) if never_is_volume => ls == 55 && next_vol(lv) == nv,
+                Some(&(lv, ls)) => lv == nv && ls + 1 == ns,
+                None => false,
+            };
+            if !reached {
                 obs.violation(
                     "polling stops before the retry budget is exhausted or delivers a chunk that never appeared",
-                    format!("expected {} deliveries before the missing chunk, observed {}; result {:?}", ni, delivered.len(), result),
+                    format!("the missing chunk is {:?}; last delivery {:?} after {} deliveries; result {:?}", (nv, ns), delivered.last(), delivered.len(), result),
                     replay.clone(),
                 );
                 return;
